@@ -119,12 +119,13 @@ def ctor_call_kwargs(fi: FuncInfo, clsname: str) -> Optional[Set[str]]:
 
 def check(ctx):
     repo = ctx.repo
+    ctx.rule("R14.10", "serialisers and copy methods do not modify the object they serialise", 8)
     ctx.rule("R14.1", "writer and reader of each serialisable class agree on the key set; conditionally written keys are "
                       "read conditionally; the reader feeds every constructor parameter", 12)
     ctx.rule("R14.7", "readers never replace a stored value by a default through truthiness (`stored or default`): 0, 0.0, False and "
                       "empty arrays are legitimate stored values", 6)
     ctx.rule("R14.9", "Solution.to_hdf5: whenever the solution object is written into a file other than its own output file, that "
-                      "file was first replaced by a copy of the output file (on every path) or the data is written explicitly", 3)
+                      "file was first replaced by a copy of the output file (on every path) or the data is written explicitly", 2)
     ctx.rule("R14.8", "equality of sequences of sub-objects compares lengths (no silent truncation by zip)", 2)
     ctx.rule("R14.2", "options: None values are dropped on save, so every Optional field must default to None "
                       "(or the reader must restore None)", 1)
@@ -222,6 +223,9 @@ def check(ctx):
     callables(ctx)
     tdgl_data(ctx)
     dynamics_detection(ctx)
+    from ..effects import serialisers_pure
+    serialisers_pure(ctx, "R14.10", "saving (or pickling) an object changes it: the object in memory no longer equals what was written, "
+                                    "and a second save writes something else")
     ctx.assume("h5py and cloudpickle round-trip the values they are given; equality methods use np.allclose where the code says so")
     ctx.decline("fidelity of h5py/cloudpickle themselves")
 
